@@ -122,6 +122,9 @@ class C16Probe(pg.DNAGenerator):
     return self.inner.multi_objective
 
   def _propose(self):
+    chk = getattr(_tls, 'on_propose', None)
+    if chk is not None:
+      chk()
     _yield_now()
     d = self.inner.propose()
     s = next(_serial)
@@ -156,13 +159,22 @@ _ALGOS = {
     # lost shows up as a missing member of the population.
     'evo-keep-all': ("ev.Evolution(ev.selectors.Random(1, seed={seed}) >> ev.mutators.Uniform(seed={seed}), "
                      "population_init=(pg.geno.Random(seed={seed}), 2), "
-                     "population_update=ev.selectors.Last(1000))"),
+                     "population_update=ev.selectors.Last(1000) >> ev.Lambda(slow))"),
     'dedup-auto': ("pg.geno.Deduping(ev.hill_climb(ev.mutators.Uniform(seed={seed}), batch_size=2, "
                    "init_population_size=2, seed={seed}), "
                    "hash_fn=lambda d: hash(tuple(d.to_numbers())), "
                    "auto_reward_fn=lambda rs: sum(rs) / len(rs))"),
 }
-_NS = {'pg': pg, 'ev': ev}
+
+
+def _slow_identity(dna_list):
+  """Population update step that takes a while (inside Evolution's lock)."""
+  if getattr(_tls, 'worker', False):
+    time.sleep(2e-4)
+  return dna_list
+
+
+_NS = {'pg': pg, 'ev': ev, 'slow': _slow_identity}
 
 
 def _make_algo(kind, seed):
@@ -241,6 +253,36 @@ def _worker(cfg, widx, group, leader, algo, space, name, log, evs, start_evt, fi
     if cfg['trace']:
       f = r.choice((0.3, 1.0, 2.5))
       sys.settrace(_make_tracer(r, min(0.9, cfg['p_cold'] * f), min(0.9, cfg['p_hot'] * f)))
+    _tls.worker = True
+    gkey = group if group is not None else ('thread', widx)
+
+    asked = [0]
+
+    def check_group(new, below=None):
+      # A new trial exists (or is being created) for this group: every trial
+      # handed to the group before must have left PENDING.  'sequential': the
+      # group's latest trial is pending and had been delivered before this
+      # worker even began its next() call.  'racing': the next() calls of two
+      # co-workers overlap (or the trial was orphaned by such an overlap).
+      known = [(pid, v) for pid, v in list(log.group_trials.get(gkey, {}).items())
+               if below is None or pid < below]
+      if not known:
+        return
+      latest = max(pid for pid, _ in known)
+      for pid, (prev, rt) in known:
+        if prev.status == 'PENDING' and (pid, new) not in reported:
+          reported.add((pid, new))
+          # (Only the creator of the new trial knows when it was created.)
+          kind = ('sequential' if (new == 'new' and pid == latest and rt < asked[0])
+                  else 'racing')
+          log.overlaps.append((kind, str(gkey), pid, new))
+
+    reported = set()
+
+    def on_propose():
+      check_group('new')
+
+    _tls.on_propose = on_propose
     if start_evt is not None:
       start_evt.wait()
     racing = _scenario(cfg) == 'co-workers-racing-finishers'
@@ -250,21 +292,26 @@ def _worker(cfg, widx, group, leader, algo, space, name, log, evs, start_evt, fi
     done_n = 0
     last_seen = None
     since = 0.0
-    for _, fb in pg.sample(space, algo, num_examples=cfg['N'], early_stopping_policy=policy,
-                           name=name, group=group):
+    it = iter(pg.sample(space, algo, num_examples=cfg['N'], early_stopping_policy=policy,
+                        name=name, group=group))
+    while True:
+      asked[0] = next(tick)
+      try:
+        _, fb = next(it)
+      except StopIteration:
+        break
       tid = fb.id
       trial = fb.get_trial()
-      evs.append((next(tick), 'recv', tid, id(trial)))
+      now = next(tick)
+      evs.append((now, 'recv', tid, id(trial)))
       log.trial_objs[id(trial)] = trial
       # Trials handed to this group earlier must be finished by now: a new
       # trial is only created for a group whose latest trial is not pending,
       # and a finished trial never becomes pending again.
-      gkey = group if group is not None else ('thread', widx)
       mine = log.group_trials.setdefault(gkey, {})
-      for pid, prev in list(mine.items()):
-        if pid < tid and prev.status == 'PENDING' and id(prev) != id(trial):
-          log.overlaps.append((str(gkey), pid, tid))
-      mine[tid] = trial
+      check_group(tid, below=tid)
+      if tid not in mine:
+        mine[tid] = (trial, now)
       if first_evt is not None:
         first_evt.set()
       if log.stop:
@@ -330,6 +377,8 @@ def _worker(cfg, widx, group, leader, algo, space, name, log, evs, start_evt, fi
   finally:
     sys.settrace(None)
     _tls.rng = None
+    _tls.on_propose = None
+    _tls.worker = False
 
 
 def run_scenario(cfg, seed_tag):
@@ -477,36 +526,21 @@ def check_run(obs):
         bad.append((wi, seq))
     put('worker.ids-strictly-increasing', not bad, f'(worker, received ids): {bad}')
   # --- one pending trial per group at a time ----------------------------------
-  pre = {}
-  for e in events:
-    if e[1] == 'pre' and e[2] not in pre:
-      pre[e[2]] = e[0]
-  per_group = {}
-  for t in sorted(delivered):
-    for g in delivered[t]:
-      per_group.setdefault(g, []).append(t)
-  overl = list(log.overlaps)
-  for g, ts in per_group.items():
-    for a, b in zip(ts, ts[1:]):
-      if a in auto:
-        continue
-      if a not in pre or pre[a] > first_recv[b]:
-        overl.append((str(g), a, b))
-  if scen == 'co-workers-single-finisher':
-    # One finisher per group; the other co-worker only reports measurements.
-    # Either symptom below means that the finisher was not given the trial
-    # its co-worker holds.
-    stuck = [(widx_of[e[0]], e[2]) for e in events if e[1] == 'stuck']
-    put(f'group.co-workers-share-the-pending-trial/{scen}', not overl and not stuck,
-        f'(group, trial, next trial) handed out while the earlier one was still pending: {overl[:5]}; '
-        f'(worker, trial) left alone with a pending trial after its finisher was told the loop '
-        f'is over: {stuck[:5]}')
-    if overl or stuck:
-      return out
-  else:
-    put(f'group.one-pending-trial-at-a-time/{scen}', not overl,
-        '(group, trial, next trial): the group was handed the next trial while the earlier one '
-        f'was still pending: {overl[:5]}')
+  # (recorded by the workers: at delivery of a trial and whenever the algorithm
+  # is asked to propose for a new trial of the group, all trials handed to the
+  # group before must have left the PENDING state.)
+  seq = [o[1:] for o in log.overlaps if o[0] == 'sequential']
+  race = [o[1:] for o in log.overlaps if o[0] == 'racing']
+  stuck = [(widx_of[e[0]], e[2]) for e in events if e[1] == 'stuck']
+  put(f'group.one-pending-trial-shared/{scen}/pending-before-the-next-call-began', not seq,
+      '(group, pending trial, new trial): a worker asked for its next trial after a co-worker '
+      f'had been handed a trial that is still pending, and got a fresh one: {seq[:5]}')
+  put(f'group.one-pending-trial-shared/{scen}/overlapping-next-calls', not race and not stuck,
+      '(group, pending trial, new trial): two workers of a group asking at the same time were '
+      f'given different new trials: {race[:5]}; (worker, trial) left alone with a pending '
+      f'trial because its finisher was told that the loop is over: {stuck[:5]}')
+  if (seq or race or stuck) and scen == 'co-workers-single-finisher':
+    return out    # the extra trial has no finisher: later checks are consequences
   # --- expected completion per trial -------------------------------------------
   fed = {}
   for a in {id(a): a for a in obs['algos']}.values():
@@ -669,7 +703,7 @@ def _scenarios(tier, seed):
         yield cfg, (1 if quick else 2)
 
 
-_QUICK_STRIDE = 7
+_QUICK_STRIDE = 8
 
 
 def _witness(cfg, case_id):
